@@ -2,10 +2,10 @@ ID = "C19"
 LEVEL = "model_checking"
 MIRSYM = "C19"
 BOUNDS = ("read_body over 2 (quick) / 2..3 (thorough) chunks vs the same bytes as one chunk: any chunk lengths < 2^31, any leading-whitespace counts, any first bytes, "
-          "Content-Length absent or any u32, limit any u32; method / content-type gate on every path; the whitespace predicate for all 256 bytes; Content-Length present (true length) vs absent; the GET-proxy middleware for configured / other paths and every method")
+          "Content-Length absent or any u32, limit any u32; method / content-type gate on every path; the whitespace predicate for all 256 bytes; Content-Length present (true length) vs absent; the GET-proxy middleware for configured / other paths and every method; every return path of response::method_not_allowed / unsupported_content_type and from_template (status 405 / 415)")
 EXPLANATION = ("Symbolic execution of the rustc MIR of the read_body coroutine with a body abstracted to what the code observes per chunk; z3 compares the k-chunk result "
                "with the one-chunk result of the concatenation (a translation-validation style self-comparison of the real code), plus gate order obligations on "
-               "transport::http::call_with_service. The answer does not depend on the presence of a Content-Length header, also at exactly the size limit. The optional GET-proxy rewrites only GET requests on configured paths.")
+               "transport::http::call_with_service. The answer does not depend on the presence of a Content-Length header, also at exactly the size limit. The optional GET-proxy rewrites only GET requests on configured paths. The two refusals carry 405 and 415 (StatusCode constants numbered from the http crate's own table; from_template hands its status parameter to the builder).")
 TRUSTED = ["rustc MIR dump", "z3 / cvc5", "hyper's own chunk decoding; http_body_util::Limited contract; HeaderMap semantics"]
 OUTSIDE = ["duplicate Content-Type headers (HeaderMap::get semantics)", "which HTTP error status an oversized body gets (413 vs 500)", "bodies that are not ready immediately (Poll::Pending scheduling)"]
 ASSUMPTIONS = ["chunk lengths < 2^31"]
